@@ -100,7 +100,7 @@ def main(chk: Check):
 
     # ------------------------------------------------------------------ sort
     sort_cases = []
-    for _ in range(chk.n(160, 4000)):
+    for _ in range(chk.n(120, 4000)):
         k = rng.randrange(4)
         cs = gen_cands(rng, rng.choice((0, 1, 2, 3, 4, 5, 6, 8)), names=NAMES if rng.random() < 0.3 else NAMES[:1])
         repos, tag_of = mk_repos([(True, [c for c in cs if c[2]]), (False, [c for c in cs if not c[2]])])
@@ -124,7 +124,7 @@ def main(chk: Check):
 
     # ------------------------------------------------------------------ merge
     merge_cases = []
-    for _ in range(chk.n(150, 3000)):
+    for _ in range(chk.n(100, 3000)):
         ns = rng.choice((0, 1, 2, 2, 3, 4))
         streams, t = [], 0
         for _s in range(ns):
@@ -145,7 +145,7 @@ def main(chk: Check):
 
     # ------------------------------------------------------------------ strategy
     strat_cases = []
-    for _ in range(chk.n(200, 5000)):
+    for _ in range(chk.n(160, 5000)):
         k = rng.randrange(2)
         nr = rng.choice((1, 2, 2, 3, 4))
         spec, t = [], 0
@@ -175,16 +175,21 @@ def main(chk: Check):
 
     spec_bad = []
     if ok:
-        for name, ty, cases, evals in (
-                ("sort", "N * list cand", sort_cases, ["mismatches run_sort cases"]),
-                ("merge", "list (list cand)", merge_cases, ["mismatches run_merge cases"]),
-                ("strategy", "N * list repo", strat_cases,
-                 ["mismatches run_strategy cases", "where_ (fun i r => negb (spec_strategy_ok i r)) cases"])):
-            r = chk.coq_eval(name, IMPORTS, ty, cases, evals, shard=chk.n(100, 400), preamble=PREAMBLE)
+        import concurrent.futures as cf
+        streams = (
+            ("sort", "N * list cand", sort_cases, ["mismatches run_sort cases"]),
+            ("merge", "list (list cand)", merge_cases, ["mismatches run_merge cases"]),
+            ("strategy", "N * list repo", strat_cases,
+             ["mismatches run_strategy cases", "where_ (fun i r => negb (spec_strategy_ok i r)) cases"]))
+        with cf.ThreadPoolExecutor(max_workers=3) as ex:        # the three streams are independent
+            results = list(ex.map(lambda st: chk.coq_eval(st[0], IMPORTS, st[1], st[2], st[3],
+                                                          shard=chk.n(100, 400), preamble=PREAMBLE), streams))
+        for (name, ty, cases, evals), r in zip(streams, results):
+            if r is not None and name == "strategy":
+                spec_bad = [cases[i] for i in r[1]]
+        for (name, ty, cases, evals), r in zip(streams, results):
             if r is None:
                 continue
-            if name == "strategy":
-                spec_bad = [cases[i] for i in r[1]]
             for i in r[0][:3]:
                 chk.violation("correspondence",
                               {"what": f"implementation and Model_C16 disagree on stream '{name}' (the theorems of "
@@ -281,7 +286,7 @@ def _resolver_can(scn, w, best) -> bool:
 
 def policy(chk: Check):
     rng = chk.rng
-    n = chk.n(500, 8000)
+    n = chk.n(400, 8000)
     stats = {"runs": 0, "ok": 0, "upgrade_checked": 0, "upgrade_highest_unresolvable": 0, "min_checked": 0,
              "twice_same": 0, "oracle_no_verdict": 0}
     bad = []
